@@ -6,18 +6,30 @@ import os
 VERIF = os.path.dirname(os.path.dirname(os.path.abspath(__file__)))
 BASELINE = "cd /repo && env -u PICOTOOL_VERIF /venv/bin/python -m pytest -ra -q -p no:cacheprovider --timeout=900 --continue-on-collection-errors"
 
-# id -> (claimed?, text, note, technique, design_ref)
-CLAIMS = {
- 'C18': (True,
-   "Theorems C18_write / C18_reject / C18_history (Coq, closed under the global context) about a model of Game.write_cart_data whose guard, skip test, four slice-bound expressions and memory-map constants are regenerated from game.py on every run: every in-range write of any data at any address leaves the concatenated regions equal to the flat splice, keeps region sizes; out-of-range is rejected; sequences compose. Tie: translator self-test lemmas + correspondence of the extracted model with the real function on all boundary-aligned (start,end) pairs, and the extracted instance predicate holds_C18 evaluated on the implementation's real before/after memory.",
-   "Trusted: Coq kernel+VM, the expression translator (self-tested in Coq against Python eval), ExtrOcamlBasic extraction, OCaml glue, Python's slice semantics as modelled in Base/PySlice.v (loop and slice assignment are hand-modelled; correspondence-tested). Negative addresses are outside the property's domain.",
-   "Coq proof over regenerated kernels + extracted-model correspondence + extracted monitor", "8 C18"),
-}
+def load_claims():
+    """Each harness/props/cXX.py declares CLAIM = dict(text=..., note=..., technique=..., design_ref=...)
+    (or NOT_CLAIMED = 'reason')."""
+    import importlib
+    import re
+    import sys
+    sys.path.insert(0, os.path.join(VERIF, 'harness'))
+    claims = {}
+    for f in sorted(os.listdir(os.path.join(VERIF, 'harness', 'props'))):
+        if re.match(r'c\d+\.py$', f):
+            m = importlib.import_module('props.' + f[:-3])
+            if getattr(m, 'CLAIM', None):
+                c = m.CLAIM
+                claims[m.ID] = (True, c['text'], c['note'], c['technique'], c.get('design_ref', '8 ' + m.ID))
+            elif getattr(m, 'NOT_CLAIMED', None):
+                claims[m.ID] = (False, m.NOT_CLAIMED, '', '', '')
+    return claims
+
 
 NOT_YET = "not yet covered by the machine-checked development in this revision (model/theorems under construction; see DESIGN.md section 10 staging)"
 
 
 def main():
+    CLAIMS = load_claims()
     props = [json.loads(l) for l in open(os.path.join(VERIF, 'properties.jsonl'))]
     checks, na = [], []
     for p in props:
